@@ -504,4 +504,173 @@ theorem lookup_eq_getD (T : List (String × Param)) (s : String) (hs : s ∈ T.m
       simp only [cond_false, List.getD_eq_getElem?_getD, List.getElem?_cons_succ] at this ⊢
       exact this
 
+
+
+/-! ### Jacobian scatter -/
+
+theorem scatter_fold_eq (idx : List Nat) (s row0 r : List Rat) (hnd : idx.Nodup)
+    (h : ∀ i ∈ idx, r.getD i 0 = row0.getD i 0) :
+    (List.zipWith (fun i sj => (i, row0.getD i 0 - sj)) idx s).foldl (fun r (iv : Nat × Rat) => r.set iv.1 iv.2) r =
+    (List.zipWith (fun i sj => (i, sj)) idx s).foldl
+      (fun r (iv : Nat × Rat) => r.set iv.1 (r.getD iv.1 0 - iv.2)) r := by
+  induction idx generalizing s r with
+  | nil => simp
+  | cons i is ih =>
+    cases s with
+    | nil => simp
+    | cons sj ss =>
+      simp only [List.zipWith_cons_cons, List.foldl_cons]
+      rw [h i (List.mem_cons_self)]
+      apply ih ss _ (List.nodup_cons.mp hnd).2
+      intro i' hi'
+      have hne : i ≠ i' := by
+        intro e; subst e; exact (List.nodup_cons.mp hnd).1 hi'
+      rw [getD_set_ne _ _ _ _ hne]
+      exact h i' (List.mem_cons_of_mem _ hi')
+
+theorem scatterRow_eq_sum (c : Condition) (row sens : List Rat) (hnd : c.pIndices.Nodup) :
+    scatterRow c row sens = scatterRowSum c row sens := by
+  unfold scatterRow scatterRowSum
+  exact scatter_fold_eq _ _ row row hnd (fun _ _ => rfl)
+
+theorem pIndices_eq (tr : List (String × Target)) (uniq : List String) (h : NamesIn tr uniq) :
+    (mkCondition tr uniq).pIndices = (tr.filterMap (·.2.name?)).map uniq.idxOf := by
+  unfold mkCondition
+  simp only [List.map_map]
+  induction tr with
+  | nil => rfl
+  | cons e es ih =>
+    have h' : NamesIn es uniq := fun e' he' => h e' (List.mem_cons_of_mem _ he')
+    cases ht : e.2 with
+    | name s =>
+      have hs : s ∈ uniq := h e (List.mem_cons_self) s ht
+      simp [Function.comp, ht, Target.name?, lookupIdx_of_mem uniq s hs] at ih ⊢
+      exact ih h'
+    | const v r =>
+      simp [Function.comp, ht, Target.name?] at ih ⊢
+      exact ih h'
+
+theorem nodup_map_idxOf (uniq ns : List String) (hin : ∀ n ∈ ns, n ∈ uniq) (hnd : ns.Nodup) :
+    (ns.map uniq.idxOf).Nodup := by
+  induction ns with
+  | nil => simp
+  | cons a as ih =>
+    rw [List.map_cons, List.nodup_cons]
+    refine ⟨?_, ih (fun n hn => hin n (List.mem_cons_of_mem _ hn)) (List.nodup_cons.mp hnd).2⟩
+    intro hmem
+    obtain ⟨b, hb, e⟩ := List.mem_map.mp hmem
+    have : a = b := idxOf_inj_of_mem uniq a b (hin a (List.mem_cons_self)) e.symm
+    subst this
+    exact (List.nodup_cons.mp hnd).1 hb
+
+/-! ### defaults -/
+
+def namedPairs (m : ModelData) : List (String × Option Param) :=
+  m.data.flatMap fun d => d.trans.filterMap fun e => match e.2 with
+    | .name s => some (s, m.default e.1)
+    | .const _ _ => none
+
+def allPairs (ms : List ModelData) : List (String × Option Param) := ms.flatMap namedPairs
+
+theorem namedPairs_fst (m : ModelData) : (namedPairs m).map (·.1) = m.transformedParams := by
+  unfold namedPairs ModelData.transformedParams parameterNames
+  rw [List.map_flatMap]
+  congr 1; funext d
+  rw [List.map_filterMap]
+  congr 1; funext e
+  cases e.2 <;> rfl
+
+theorem namedPairs_snd (m : ModelData) : (namedPairs m).map (·.2) = m.dataDefaults := by
+  unfold namedPairs ModelData.dataDefaults sourceNames
+  rw [List.map_flatMap]
+  congr 1; funext d
+  rw [List.map_filterMap, List.map_filterMap]
+  congr 1; funext e
+  cases e.2 <;> rfl
+
+theorem allPairs_fst (ms : List ModelData) : (allPairs ms).map (·.1) = allNames ms := by
+  unfold allPairs allNames
+  rw [List.map_flatMap]
+  congr 1; funext m; exact namedPairs_fst m
+
+theorem allPairs_snd (ms : List ModelData) : (allPairs ms).map (·.2) = allDefaults true ms := by
+  unfold allPairs allDefaults
+  rw [List.map_flatMap]
+  congr 1; funext m; simp [namedPairs_snd]
+
+theorem getElem_idxOf_eq_lookup {β} (l : List (String × β)) (n : String) (h : n ∈ l.map (·.1)) :
+    (l.map (·.2))[(l.map (·.1)).idxOf n]? = l.lookup n := by
+  induction l with
+  | nil => cases h
+  | cons e es ih =>
+    obtain ⟨k, v⟩ := e
+    simp only [List.map_cons, List.idxOf_cons, List.lookup_cons]
+    by_cases e' : n = k
+    · subst e'; simp
+    · have h1 : (n == k) = false := by simp [e']
+      have h2 : (k == n) = false := by simp [Ne.symm e']
+      rw [h1, h2]
+      simp only [cond_false, List.getElem?_cons_succ]
+      exact ih (by simpa [e'] using h)
+
+theorem buildDefaults_aligned (ms : List ModelData) :
+    buildDefaults true ms = (globalNames ms).map fun n => ((allPairs ms).lookup n).join := by
+  unfold buildDefaults
+  apply List.map_congr_left
+  intro n hn
+  have hn' : n ∈ (allPairs ms).map (·.1) := by
+    rw [allPairs_fst]; exact (mem_unique _ _).mp hn
+  rw [← allPairs_fst, ← allPairs_snd, getElem_idxOf_eq_lookup _ n hn']
+
+theorem allDefaults_of_all_data (ms : List ModelData) (h : ∀ m ∈ ms, m.data ≠ []) :
+    allDefaults false ms = allDefaults true ms := by
+  unfold allDefaults
+  induction ms with
+  | nil => rfl
+  | cons m ms ih =>
+    have hm : m.data.isEmpty = false := by
+      cases hd : m.data with
+      | nil => exact absurd hd (h m (List.mem_cons_self))
+      | cons a as => rfl
+    simp only [List.flatMap_cons]
+    rw [ih (fun m' hm' => h m' (List.mem_cons_of_mem _ hm'))]
+    simp [ModelData.defaults, hm]
+
+
+theorem mem_zip_map_self {α β} (l : List α) (g : α → β) (n : α) (h : n ∈ l) : (n, g n) ∈ l.zip (l.map g) := by
+  induction l with
+  | nil => cases h
+  | cons a as ih =>
+    simp only [List.map_cons, List.zip_cons_cons, List.mem_cons, Prod.mk.injEq]
+    rcases List.mem_cons.mp h with rfl | h
+    · exact .inl ⟨rfl, rfl⟩
+    · exact .inr (ih h)
+
+/-! ### rebuilding, adding data -/
+
+theorem build_models_names (r : Bool) (F : Fit) : globalNames (F.build r).models = globalNames F.models := by
+  have h : ∀ ms : List ModelData, allNames (ms.map fun m => { m with built := true }) = allNames ms := by
+    intro ms; simp [allNames, ModelData.transformedParams, List.flatMap_map]
+  simp only [Fit.build, globalNames, h]
+
+theorem build_models_defaults (r : Bool) (F : Fit) :
+    buildDefaults r (F.build r).models = buildDefaults r F.models := by
+  have h : ∀ ms : List ModelData, allNames (ms.map fun m => { m with built := true }) = allNames ms := by
+    intro ms; simp [allNames, ModelData.transformedParams, List.flatMap_map]
+  have h2 : ∀ ms : List ModelData,
+      allDefaults r (ms.map fun m => { m with built := true }) = allDefaults r ms := by
+    intro ms
+    have hd : ∀ m : ModelData, ({ m with built := true } : ModelData).default = m.default := fun _ => rfl
+    simp [allDefaults, List.flatMap_map, ModelData.defaults, ModelData.dataDefaults, hd]
+  simp only [Fit.build, buildDefaults, globalNames, h, h2]
+
+/-- the models after a dataset `d` was appended to model `m` (`pre ++ m :: post` ↦ …) -/
+def withData (pre : List ModelData) (m : ModelData) (post : List ModelData) (d : Data) : List ModelData :=
+  pre ++ { m with built := false, data := m.data ++ [d] } :: post
+
+theorem allNames_withData (pre post : List ModelData) (m : ModelData) (d : Data) :
+    allNames (withData pre m post d) =
+      allNames pre ++ (m.transformedParams ++ parameterNames d) ++ allNames post := by
+  simp [allNames, withData, ModelData.transformedParams, List.flatMap_append]
+
 end Verif.C14
